@@ -7,8 +7,8 @@ import vf
 
 PROP = 'C02'
 CFG = {
-    'quick': dict(char='gen/MC_C02char_q.cfg', tok='gen/MC_C02tok.cfg', deep='gen/MC_C02deep_q.cfg', mem='gen/MC_C02mem_q.cfg', equiv='gen/MC_JsonEquiv.cfg'),
-    'thorough': dict(char='gen/MC_C02char_t.cfg', tok='gen/MC_C02tok_t.cfg', deep='gen/MC_C02deep.cfg', mem='gen/MC_C02mem_t.cfg', equiv='gen/MC_JsonEquiv.cfg'),
+    'quick': dict(char='gen/MC_C02char_q.cfg', tok='gen/MC_C02tok.cfg', deep='gen/MC_C02deep_q.cfg', mem='gen/MC_C02mem_q.cfg', tokx='gen/MC_C02tokx_q.cfg', equiv='gen/MC_JsonEquiv.cfg'),
+    'thorough': dict(char='gen/MC_C02char_t.cfg', tok='gen/MC_C02tok_t.cfg', deep='gen/MC_C02deep.cfg', mem='gen/MC_C02mem_t.cfg', tokx='gen/MC_C02tokx_t.cfg', equiv='gen/MC_JsonEquiv.cfg'),
 }
 
 
@@ -34,7 +34,8 @@ def gens(tier):
     return [vf.tlc_gen('gen/MC_C02char', c['char'], timeout=1500),
             vf.tlc_gen('gen/MC_C02tok', c['tok'], timeout=1500),
             vf.tlc_gen('gen/MC_C02tok', c['deep'], timeout=1500),
-            vf.tlc_gen('gen/MC_C02tok', c['mem'], timeout=1500)]
+            vf.tlc_gen('gen/MC_C02tok', c['mem'], timeout=1500),
+            vf.tlc_gen('gen/MC_C02tokx', c['tokx'], timeout=1500)]
 
 
 def setup():
@@ -62,10 +63,14 @@ def run(tier):
     cov['rule'] = ('every viable prefix (and each minimal dead extension) of RFC 8259 texts over a 27-character class alphabet up to the '
                    'configured length, every sequence of whole tokens (86 tokens: punctuation, comments, literals, 32 number literals, '
                    '37 string literals) up to the configured count, deep sequences over an 11-token alphabet, and objects built from up to 3/4 whole members (2 names x 8 value kinds: duplicate names in every position); each distinct text is '
-                   'one case; x {allow_comments} x {allow_trailing_comma} x max_nesting_depth in {default, depth, depth-1} x 5 entry points')
+                   'one case; token sequences over the 11-token alphabet with up to two of 38 extra tokens (corners of the escaped surrogate-pair range, scalar boundaries, characters '
+                   'above U+00FF whose low byte is an ASCII character with a role in the grammar, outside and inside strings); '
+                   'x {allow_comments} x {allow_trailing_comma} x max_nesting_depth in {default, depth, depth-1} x 5 char entry points and - for every text that is valid UTF-8 - '
+                   'the same 5 entry points of the wchar_t instantiation (one wchar_t per code point; value narrowed back and compared with the same prediction)')
     cov['bounds'] = {k: open(os.path.join(vf.SPEC, v)).read().split('CONSTANTS')[1].split() for k, v in CFG[tier].items()}
     cov['samples'] = vf.sample_lines(g[1][0], 2) + vf.sample_lines(g[2][0], 1)
     rep.assumptions += ['glibc strtod is the reference for the value of fractional/exponent literals (C04 decides rounding)',
+                        'decode options lossless_number / lossless_bignum / nan and inf string substitution stay at their defaults',
                         'texts containing an escape that denotes an unpaired surrogate, and comments after the top-level value when allow_comments is on, are not compared (declared dont-care)']
     return rep.finish(dict(harness='c02'))
 
